@@ -105,6 +105,23 @@ def cases(rng, tier):
         c = ragidx.colsel_random(m, rng) if rng.random() < 0.6 else None
         idx = {"r": r, "c": c}
         add(lens, idx, rng.choice(_value_kinds(lens, idx, rng)))
+    # selections of MORE THAN 100000 rows (the library builds long flat-index arrays piecewise): stepped, reversed, masked and
+    # permuted row selectors over arrays with many empty rows; too long for the Lean driver (implementation vs oracle only)
+    for _ in range(3 if tier == "quick" else 12):
+        n = rng.randint(200001, 260000)
+        lens = [rng.choice([0, 0, 1, 2, 3]) for _ in range(n)]
+        t = rng.choice(["step", "rev", "mask", "perm"])
+        if t == "step":
+            r = {"t": "slice", "a": rng.choice([None, 1]), "b": None, "k": 2}
+        elif t == "rev":
+            r = {"t": "slice", "a": None, "b": None, "k": -1}
+        elif t == "mask":
+            r = {"t": "mask", "bs": [rng.random() < 0.6 for _ in range(n)]}
+        else:
+            sel = list(range(0, n, 2)); rng.shuffle(sel)
+            r = {"t": "list", "is": sel}
+        out.append({"lens": lens, "idx": {"r": r, "c": None}, "val": {"t": "scalar"}, "dtype": rng.choice(["int64", "int8", "float64"]),
+                    "vseed": rng.randint(0, 999), "variant": 0, "big": True})
     return out
 
 
@@ -233,6 +250,8 @@ def oracle(p):
 
 
 def lean_request(p):
+    if p.get("big"):
+        return None
     vi = _value_ids(p)
     n = sum(p["lens"])
     def sh(x):
